@@ -130,4 +130,11 @@ def r14_6(ctx):
             o["rule"] = "R14.6"
 
 
-RULES = [("R14.1", r14_1), ("R14.2", r14_2), ("R14.3", r14_3), ("R14.4", r14_4), ("R14.5", r14_5), ("R14.6", r14_6)]
+def r14_s(ctx):
+    """further clauses of the validating skipper behind the checked lazy APIs (shared with C02)"""
+    from . import c02
+    for fn in (c02.r02_2, c02.r02_4, c02.r02_7):
+        ctx.include(fn, 'R14.S')
+
+
+RULES = [("R14.1", r14_1), ("R14.2", r14_2), ("R14.3", r14_3), ("R14.4", r14_4), ("R14.5", r14_5), ("R14.6", r14_6), ("R14.S", r14_s)]
